@@ -30,6 +30,11 @@ Definition gj_inverse (M : mat) : mat :=
   let AI := gj_eliminate M in
   mkseq (fun i => let r := nth [::] AI i in let a := nth k0 r i in drop n (map (fun x => kdiv x a) r)) n.
 
+(* MatrixMoorePenrosePseudoinverse: A+ = (A'A)^-1 A' with the transpose, the two products and the Gauss–Jordan inversion above
+   (A is m x n, the result n x m) *)
+Definition pinv (m n : nat) (A : mat) : mat :=
+  let At := transpose n A in matmul m (gj_inverse (matmul n At A)) At.
+
 (* MatrixDeterminant: sizes 1 and 2 directly, otherwise sum_k (-1)^(k+2) m[0][k] det(minor_0k) *)
 Definition minor0 (M : mat) (k : nat) : mat :=
   map (fun r => take k r ++ drop k.+1 r) (behead M).
